@@ -104,7 +104,7 @@ let snapshot id step (inp : input) (s : state) =
     s.st_routes;
   Printf.printf "%s planned %s\n" p (keys inp s.st_planned);
   Printf.printf "%s unplanned %s\n" p (keys inp s.st_unplanned);
-  Printf.printf "%s fixed %s\n" p "";
+  Printf.printf "%s fixed %s\n" p (keys inp s.st_fixed);
   let terms = List.sort compare (List.map2 (fun n v -> n ^ "=" ^ zs v) (term_names inp) s.st_scores) in
   Printf.printf "%s score %s | %s\n" p (zs s.st_total) (String.concat " " terms)
 
